@@ -8,7 +8,7 @@ export PYTHONDONTWRITEBYTECODE=1 PYTHONPYCACHEPREFIX=/verif/build/.nopyc
 git -C /repo worktree remove --force $wt 2>/dev/null; rm -rf $wt
 git -C /repo worktree add -q --detach $wt HEAD || exit 2
 git -C /repo rev-parse HEAD > $out/confirmed_on_commit.txt
-cp $out/demo_$pid.py $wt/
+sed "s#/tmp/seed_[a-z0-9]*_[0-9]*#$wt#g" $out/demo_$pid.py > $wt/demo_$pid.py
 echo "== demo WITHOUT change (HEAD)"; (cd $wt && PYTHONPATH=$wt timeout 900 /venv/bin/python -W ignore demo_$pid.py > $out/demo_without.log 2>&1; echo "rc=$?" | tee $out/demo_without.rc; tail -2 $out/demo_without.log | cut -c1-200)
 if ! git -C $wt apply --3way $out/patch.diff 2> $out/apply.log; then echo "PATCH DOES NOT APPLY to HEAD (see apply.log)"; cat $out/apply.log | tail -5; fi
 git -C $wt diff HEAD -- nitime > $out/patch_on_head.diff
